@@ -1,5 +1,5 @@
 /-
-C25 — Brush-constrained designs are unions of brush placements  (PARTIAL by design: termination is not proved).
+C25 — Brush-constrained designs are unions of brush placements (termination included).
 
 Theorems about `FdtdxModel/C25.lean`, any design size, any point-symmetric odd-sized brush, any design values:
 
@@ -17,14 +17,25 @@ Theorems about `FdtdxModel/C25.lean`, any design size, any point-symmetric odd-s
                              void region is ⋃ brush(touch_v) ∩ domain, so every pixel of either region lies in a brush
                              footprint whose in-domain part is inside that region.
 
-FULL STATEMENT (not proved): `BrushConstraint2D` terminates on every design and the conclusion above holds.
-Missing: (a) termination — needs "an uncovered pixel always admits a valid touch" (case 3 otherwise selects flat index
-0 whatever it is) and a progress measure; (b) that the touch selected by `argmax` in cases 2/3 is a valid one whenever one
-exists (true by inspection: `-inf` entries never win against a finite one; not formalised). Both are the hypothesis
-"every iteration made a good choice and the loop ended", which the model evaluates on EVERY run of K (`status`, `allGood`)
-next to the real code.
+  C25_step_inv               one iteration from a state satisfying the invariant `Inv` (touches in the domain; solid ∩ void = ∅;
+                             every pixel still possible for one polarity; required pixels of at most one polarity) with an
+                             uncovered pixel left: the selected touches are valid (the `argmax` of `where(mask, ±arr, -inf)` lands
+                             in the mask; in case 3 a valid touch EXISTS), a new touch is added, `Inv` holds again
+  C25_run_terminates         hence the loop ends through its exit condition after at most 2·h·w iterations (measure: number of
+                             touches), never stuck, never selecting flat index 0 by default
+  C25_generator_terminates / C25_circular_generator_terminates / C25_generator_spec
+                             termination and the full conclusion of the property with no hypothesis beyond "odd, point-symmetric
+                             brush containing its centre" — which `circular_brush(p/q)` satisfies for every rational diameter.
+
+Why termination holds (not in the paper's text, found while proving): required pixels of the two polarities never coexist.
+A solid touch only shrinks the set of possible void pixels, so it can only create required-SOLID pixels; while those exist
+case 2 keeps picking solid resolving touches; free touches (case 1) change neither set of possible pixels.  Without this
+invariant the step "a resolving touch of one polarity does not make a required pixel of the other polarity impossible" is
+false (a 7-element abstract cover relation refutes it), but such states are unreachable.
 -/
-import FdtdxLemmas.C25Basic
+import FdtdxLemmas.C25Term
+import Mathlib.Data.Finset.Card
+import Mathlib.Data.Finset.Prod
 
 namespace Fdtdx.C25
 
@@ -364,6 +375,291 @@ theorem C25_generator_partial (d : Dims) (b : Brush) (hs : Sym b) (neg : α → 
 
 end loop
 
+/-! ### termination -/
+
+/-- the loop invariant: touches in the domain, solid ∩ void = ∅, every pixel still possible for one polarity, required
+pixels of at most one polarity -/
+def Inv (d : Dims) (b : Brush) (st : State) : Prop := Bnd d st ∧ Disjoint d b st ∧ Jinv d b st ∧ Iinv d b st
+
+/-- the iteration added a touch -/
+def Progress (d : Dims) (st st' : State) : Prop :=
+  ∃ i j, inb d i j = true ∧ ((look st'.s i j = true ∧ look st.s i j = false) ∨ (look st'.v i j = true ∧ look st.v i j = false))
+
+theorem bnd_apply (d : Dims) (st : State) (hb : Bnd d st) (ch : Choice) : Bnd d (apply d st ch) := by
+  cases ch with
+  | free fv fs =>
+    constructor <;> intro i j h <;> simp only [apply] at h <;> rw [look_orT] at h <;>
+      simp only [Bool.and_eq_true] at h <;> exact h.1
+  | single solid idx k =>
+    cases solid
+    · refine ⟨?_, ?_⟩
+      · intro i j h; simp only [apply] at h; exact hb.1 i j h
+      · intro i j h; simp only [apply] at h; rw [look_setIdx] at h; simp only [Bool.and_eq_true] at h; exact h.1
+    · refine ⟨?_, ?_⟩
+      · intro i j h; simp only [apply] at h; rw [look_setIdx] at h; simp only [Bool.and_eq_true] at h; exact h.1
+      · intro i j h; simp only [apply] at h; exact hb.2 i j h
+
+section stepinv
+variable {α : Type} [LT α] [DecidableRel (α := α) (· < ·)]
+
+/-- **one iteration from a state satisfying the invariant, with an uncovered pixel left**: the touches selected are valid
+ones, a new touch is added, and the invariant holds again. -/
+theorem C25_step_inv (d : Dims) (b : Brush) (hs : Sym b) (neg : α → α) (arr : Nat → α) (st : State)
+    (hinv : Inv d b st) (hu : uncovered d b st = true) :
+    goodChoice d (derive d b st) (choose d neg arr (derive d b st)) = true ∧
+    Inv d b (apply d st (choose d neg arr (derive d b st))) ∧
+    Progress d st (apply d st (choose d neg arr (derive d b st))) := by
+  obtain ⟨hbnd, hdis, hJ, hI⟩ := hinv
+  -- what a solid / void single choice gives
+  have solidCase : ∀ (i j c : Nat), inb d i j = true → look (derive d b st).validS i j = true →
+      (∀ x y, look (reqV d b st) x y = false) →
+      goodChoice d (derive d b st) (.single true (i * d.w + j) c) = true ∧
+      Inv d b (apply d st (.single true (i * d.w + j) c)) ∧ Progress d st (apply d st (.single true (i * d.w + j) c)) := by
+    intro i j c hin hv hnr
+    have hns := ((vS_iff d b st i j).mp hv).2.2
+    refine ⟨?_, ⟨bnd_apply d st hbnd _, C25_single_solid_preserves d b hs st i j c hdis hv, ?_⟩, ?_⟩
+    · simp only [goodChoice]
+      rw [anyCells_iff]; exact ⟨i, j, hin, by simp [hv]⟩
+    · exact inv_addS d b st i j hbnd hv hJ hnr
+    · refine ⟨i, j, hin, Or.inl ⟨?_, hns⟩⟩
+      simp only [apply]; rw [look_setIdx]; simp [hin]
+  have voidCase : ∀ (i j c : Nat), inb d i j = true → look (derive d b st).validV i j = true →
+      (∀ x y, look (reqS d b st) x y = false) →
+      goodChoice d (derive d b st) (.single false (i * d.w + j) c) = true ∧
+      Inv d b (apply d st (.single false (i * d.w + j) c)) ∧ Progress d st (apply d st (.single false (i * d.w + j) c)) := by
+    intro i j c hin hv hnr
+    have hns := ((vV_iff d b st i j).mp hv).2.2
+    refine ⟨?_, ⟨bnd_apply d st hbnd _, C25_single_void_preserves d b hs st i j c hdis hv, ?_⟩, ?_⟩
+    · simp only [goodChoice]
+      rw [anyCells_iff]; exact ⟨i, j, hin, by simp [hv]⟩
+    · exact inv_addV d b st i j hbnd hv hJ hnr
+    · refine ⟨i, j, hin, Or.inr ⟨?_, hns⟩⟩
+      simp only [apply]; rw [look_setIdx]; simp [hin]
+  unfold choose
+  by_cases hfree : anyCells d (fun i j => look (derive d b st).freeS i j || look (derive d b st).freeV i j) = true
+  · -- case 1
+    rw [if_pos hfree]
+    refine ⟨?_, ⟨bnd_apply d st hbnd _, C25_free_preserves d b hs st hdis, ?_⟩, ?_⟩
+    · simp only [goodChoice, Bool.and_eq_true]
+      exact ⟨(eqT'_iff d _ _).mpr (fun _ _ _ => rfl), (eqT'_iff d _ _).mpr (fun _ _ _ => rfl)⟩
+    · exact inv_addFree d b hs st hbnd hJ hI
+    · rw [anyCells_iff] at hfree
+      obtain ⟨i, j, hin, hf⟩ := hfree
+      simp only [Bool.or_eq_true] at hf
+      refine ⟨i, j, hin, ?_⟩
+      rcases hf with hf | hf
+      · have hv := ((fS_iff d b st i j).mp hf).1
+        refine Or.inl ⟨?_, ((vS_iff d b st i j).mp hv).2.2⟩
+        simp only [apply]; rw [look_orT]; simp [hin, hf]
+      · have hv := ((fV_iff d b st i j).mp hf).1
+        refine Or.inr ⟨?_, ((vV_iff d b st i j).mp hv).2.2⟩
+        simp only [apply]; rw [look_orT]; simp [hin, hf]
+  · rw [if_neg hfree]
+    by_cases hres : anyCells d (fun i j => look (derive d b st).resS i j || look (derive d b st).resV i j) = true
+    · -- case 2: the polarity of the resolving touch is the only one with required pixels
+      rw [if_pos hres]
+      rw [anyCells_iff] at hres
+      obtain ⟨i0, j0, hin0, h0⟩ := hres
+      simp only [Bool.or_eq_true] at h0
+      rcases best_spec d neg arr (derive d b st).resS (derive d b st).resV 2 ⟨i0, j0, hin0, h0⟩ with
+        ⟨i, j, hin, hm, he⟩ | ⟨i, j, hin, hm, he⟩
+      · rw [he]
+        rw [derive_resS, look_andT] at hm
+        simp only [Bool.and_eq_true] at hm
+        obtain ⟨_, pi, pj, hreq, _⟩ := (look_dil d b _ i j).mp hm.2.1
+        apply solidCase i j 2 hin hm.2.2
+        rcases hI with h | h
+        · rw [h pi pj] at hreq; exact absurd hreq (by simp)
+        · exact h
+      · rw [he]
+        rw [derive_resV, look_andT] at hm
+        simp only [Bool.and_eq_true] at hm
+        obtain ⟨_, pi, pj, hreq, _⟩ := (look_dil d b _ i j).mp hm.2.1
+        apply voidCase i j 2 hin hm.2.2
+        rcases hI with h | h
+        · exact h
+        · rw [h pi pj] at hreq; exact absurd hreq (by simp)
+    · -- case 3: no pixel is required at all
+      rw [if_neg hres]
+      have hnoS : ∀ x y, look (reqS d b st) x y = false := by
+        intro x y
+        by_contra hc
+        obtain ⟨i, j, hin, hr⟩ := exists_res_of_reqS d b hs st hJ (by simpa using hc)
+        exact hres ((anyCells_iff d _).mpr ⟨i, j, hin, by simp [hr]⟩)
+      have hnoV : ∀ x y, look (reqV d b st) x y = false := by
+        intro x y
+        by_contra hc
+        obtain ⟨i, j, hin, hr⟩ := exists_res_of_reqV d b hs st hJ (by simpa using hc)
+        exact hres ((anyCells_iff d _).mpr ⟨i, j, hin, by simp [hr]⟩)
+      rcases best_spec d neg arr (derive d b st).validS (derive d b st).validV 3 (exists_valid_of_J d b st hJ hu) with
+        ⟨i, j, hin, hm, he⟩ | ⟨i, j, hin, hm, he⟩
+      · rw [he]; exact solidCase i j 3 hin hm hnoV
+      · rw [he]; exact voidCase i j 3 hin hm hnoS
+
+end stepinv
+
+/-! ### the measure: number of touches -/
+
+def tbox (d : Dims) : Finset (Nat × Nat) := Finset.range d.h ×ˢ Finset.range d.w
+def tcount (d : Dims) (t : Tab) : Nat := ((tbox d).filter fun c => look t c.1 c.2 = true).card
+/-- touches of both polarities -/
+def cnt (d : Dims) (st : State) : Nat := tcount d st.s + tcount d st.v
+
+theorem mem_tbox (d : Dims) (c : Nat × Nat) : c ∈ tbox d ↔ inb d c.1 c.2 = true := by
+  simp [tbox, inb]
+
+theorem tcount_le (d : Dims) (t : Tab) : tcount d t ≤ d.h * d.w := by
+  unfold tcount
+  refine (Finset.card_filter_le _ _).trans ?_
+  simp [tbox]
+
+theorem tcount_mono (d : Dims) {x y : Tab} (h : ∀ i j, inb d i j = true → look x i j = true → look y i j = true) :
+    tcount d x ≤ tcount d y := by
+  unfold tcount
+  apply Finset.card_le_card
+  intro c hc
+  simp only [Finset.mem_filter] at hc ⊢
+  exact ⟨hc.1, h _ _ ((mem_tbox d c).mp hc.1) hc.2⟩
+
+theorem tcount_lt (d : Dims) {x y : Tab} (h : ∀ i j, inb d i j = true → look x i j = true → look y i j = true)
+    {i j : Nat} (hin : inb d i j = true) (hy : look y i j = true) (hx : look x i j = false) : tcount d x < tcount d y := by
+  unfold tcount
+  apply Finset.card_lt_card
+  rw [Finset.ssubset_iff_of_subset]
+  · refine ⟨(i, j), ?_, ?_⟩
+    · simp only [Finset.mem_filter]; exact ⟨(mem_tbox d (i, j)).mpr hin, hy⟩
+    · simp only [Finset.mem_filter, not_and]; intro _; simp [hx]
+  · intro c hc
+    simp only [Finset.mem_filter] at hc ⊢
+    exact ⟨hc.1, h _ _ ((mem_tbox d c).mp hc.1) hc.2⟩
+
+theorem cnt_le (d : Dims) (st : State) : cnt d st ≤ 2 * d.h * d.w := by
+  unfold cnt
+  have := tcount_le d st.s
+  have := tcount_le d st.v
+  rw [Nat.mul_assoc]; omega
+
+theorem cnt_lt_of_progress (d : Dims) (st : State) (ch : Choice) (hp : Progress d st (apply d st ch)) :
+    cnt d st < cnt d (apply d st ch) := by
+  obtain ⟨i, j, hin, h⟩ := hp
+  have gs : ∀ a c, inb d a c = true → look st.s a c = true → look (apply d st ch).s a c = true :=
+    fun a c hac => (C25_touches_grow d st ch a c hac).1
+  have gv : ∀ a c, inb d a c = true → look st.v a c = true → look (apply d st ch).v a c = true :=
+    fun a c hac => (C25_touches_grow d st ch a c hac).2
+  unfold cnt
+  rcases h with ⟨h1, h2⟩ | ⟨h1, h2⟩
+  · have := tcount_lt d gs hin h1 h2
+    have := tcount_mono d gv
+    omega
+  · have := tcount_lt d gv hin h1 h2
+    have := tcount_mono d gs
+    omega
+
+theorem eqT_iff' (d : Dims) (x y : Tab) : eqT d x y = true ↔ ∀ i j, inb d i j = true → look x i j = look y i j := by
+  unfold eqT
+  rw [Bool.not_eq_true', ← Bool.not_eq_true, anyCells_iff]
+  constructor
+  · intro h i j hin
+    by_contra hne
+    exact h ⟨i, j, hin, by simpa using hne⟩
+  · rintro h ⟨i, j, hin, hne⟩
+    have := h i j hin
+    simp [this] at hne
+
+section termination
+variable {α : Type} [LT α] [DecidableRel (α := α) (· < ·)]
+
+/-- **the loop terminates**: from a state satisfying the invariant, with fuel exceeding the number of touches that can
+still be added, the fuelled loop of the model ends through its exit condition (never "stuck", never out of fuel), and
+every iteration selected valid touches. -/
+theorem C25_run_terminates (d : Dims) (b : Brush) (hs : Sym b) (neg : α → α) (arr : Nat → α) :
+    ∀ (fuel : Nat) (st : State) (n : Nat) (cs : List Nat), Inv d b st → 2 * d.h * d.w < fuel + cnt d st →
+      (run d b neg arr fuel st n cs true).status = "done" ∧ (run d b neg arr fuel st n cs true).allGood = true := by
+  intro fuel
+  induction fuel with
+  | zero =>
+    intro st n cs _ hf
+    have := cnt_le d st
+    omega
+  | succ fuel ih =>
+    intro st n cs hinv hf
+    simp only [run]
+    by_cases hu : uncovered d b st = true
+    · simp only [hu, Bool.not_true, Bool.false_eq_true, if_false]
+      obtain ⟨hgood, hinv', hprog⟩ := C25_step_inv d b hs neg arr st hinv hu
+      have hlt := cnt_lt_of_progress d st _ hprog
+      have hnotstuck : ¬ ((eqT d st.v (apply d st (choose d neg arr (derive d b st))).v &&
+          eqT d st.s (apply d st (choose d neg arr (derive d b st))).s) = true) := by
+        intro hc
+        simp only [Bool.and_eq_true, eqT_iff'] at hc
+        obtain ⟨i, j, hin, h⟩ := hprog
+        rcases h with ⟨h1, h2⟩ | ⟨h1, h2⟩
+        · rw [← hc.2 i j hin, h2] at h1; exact absurd h1 (by simp)
+        · rw [← hc.1 i j hin, h2] at h1; exact absurd h1 (by simp)
+      rw [if_neg hnotstuck]
+      simp only [hgood, Bool.and_true]
+      exact ih _ (n + 1) _ hinv' (by omega)
+    · have hu' : uncovered d b st = false := by simpa using hu
+      simp [hu']
+
+theorem cov_self (b : Brush) (hc : look b.cells b.c b.c = true) (i j : Nat) : Cov b i j i j :=
+  ⟨b.c, b.c, by unfold Brush.size; omega, by unfold Brush.size; omega, hc, rfl, rfl⟩
+
+/-- the empty state satisfies the invariant when the brush contains its centre -/
+theorem inv_empty (d : Dims) (b : Brush) (hc : look b.cells b.c b.c = true) :
+    Inv d b ⟨tab d fun _ _ => false, tab d fun _ _ => false⟩ := by
+  have hz : ∀ i j, look (tab d fun _ _ => false) i j = false := by intro i j; rw [look_tab]; simp
+  have hdz : ∀ i j, look (dil d b (tab d fun _ _ => false)) i j = false := by
+    intro i j
+    by_contra h
+    obtain ⟨_, ti, tj, ht, _⟩ := (look_dil d b _ i j).mp (by simpa using h)
+    rw [hz] at ht; exact absurd ht (by simp)
+  have hddz : ∀ i j, look (dil d b (dil d b (tab d fun _ _ => false))) i j = false := by
+    intro i j
+    by_contra h
+    obtain ⟨_, ti, tj, ht, _⟩ := (look_dil d b _ i j).mp (by simpa using h)
+    rw [hdz] at ht; exact absurd ht (by simp)
+  have hpS : ∀ i j, inb d i j = true → look (possS d b ⟨tab d fun _ _ => false, tab d fun _ _ => false⟩) i j = true := by
+    intro i j hin
+    exact (possS_iff d b _ i j).mpr ⟨hin, i, j, hin, Or.inr ((vS_iff d b _ i j).mpr ⟨hin, hddz i j, hz i j⟩), cov_self b hc i j⟩
+  have hpV : ∀ i j, inb d i j = true → look (possV d b ⟨tab d fun _ _ => false, tab d fun _ _ => false⟩) i j = true := by
+    intro i j hin
+    exact (possV_iff d b _ i j).mpr ⟨hin, i, j, hin, Or.inr ((vV_iff d b _ i j).mpr ⟨hin, hddz i j, hz i j⟩), cov_self b hc i j⟩
+  refine ⟨⟨fun i j h => by rw [hz] at h; exact absurd h (by simp), fun i j h => by rw [hz] at h; exact absurd h (by simp)⟩,
+    ?_, fun i j hin => Or.inl (hpS i j hin), Or.inl ?_⟩
+  · intro i j ⟨h1, _⟩
+    rw [hdz] at h1; exact absurd h1 (by simp)
+  · intro i j
+    by_contra h
+    obtain ⟨hin, _, h2⟩ := (reqS_iff d b _ i j).mp (by simpa using h)
+    rw [hpV i j hin] at h2; exact absurd h2 (by simp)
+
+/-- **BrushConstraint2D's generator terminates on every design** (any design size, any values, any point-symmetric odd
+brush containing its centre): the model's loop ends through its exit condition within its fuel `2·h·w + 2` — at most one
+iteration per touch that can be added — and every iteration selected valid touches. -/
+theorem C25_generator_terminates (d : Dims) (b : Brush) (hs : Sym b) (hc : look b.cells b.c b.c = true)
+    (neg : α → α) (arr : Nat → α) :
+    (generator d b neg arr).1.status = "done" ∧ (generator d b neg arr).1.allGood = true := by
+  have := C25_run_terminates d b hs neg arr (2 * d.h * d.w + 2) _ 0 [] (inv_empty d b hc) (by omega)
+  exact this
+
+/-- **C25, full statement for the model**: the generator terminates and returns a binary design whose solid region is the
+union of the in-domain brush footprints of the solid touches and whose void region is the union of the in-domain footprints
+of the void touches — every pixel of either region lies in a brush placement whose in-domain part is inside that region. -/
+theorem C25_generator_spec (d : Dims) (b : Brush) (hs : Sym b) (hc : look b.cells b.c b.c = true)
+    (neg : α → α) (arr : Nat → α) (pi pj : Nat) (hin : inb d pi pj = true) :
+    let o := (generator d b neg arr).1
+    let out := (generator d b neg arr).2
+    o.status = "done" ∧
+    (look out pi pj = true ↔ ∃ ti tj, look o.st.s ti tj = true ∧ Cov b ti tj pi pj) ∧
+    (look out pi pj = false ↔ ∃ ti tj, look o.st.v ti tj = true ∧ Cov b ti tj pi pj) ∧
+    (∀ ti tj, look o.st.s ti tj = true → ∀ qi qj, inb d qi qj = true → Cov b ti tj qi qj → look out qi qj = true) ∧
+    (∀ ti tj, look o.st.v ti tj = true → ∀ qi qj, inb d qi qj = true → Cov b ti tj qi qj → look out qi qj = false) := by
+  obtain ⟨hdone, hgood⟩ := C25_generator_terminates d b hs hc neg arr
+  exact ⟨hdone, C25_generator_partial d b hs neg arr hgood hdone pi pj hin⟩
+
+end termination
+
 /-! ### circular_brush meets the hypotheses on the brush -/
 
 theorem sqd_reflect (a c : Nat) (h : a ≤ 2 * c) : sqd (2 * c - a) c = sqd a c := by
@@ -399,12 +695,25 @@ theorem C25_circularBrush_centre (p q : Nat) :
 /-- the 3×3 full brush (`circular_brush(3)`) is point-symmetric -/
 def brush3 : Brush := ⟨1, tab ⟨3, 3⟩ fun _ _ => true⟩
 
-example : Sym brush3 := by
+theorem brush3_sym : Sym brush3 := by
   intro a bb ha hb
   simp only [brush3, Brush.size] at ha hb ⊢
   have h1 : a = 0 ∨ a = 1 ∨ a = 2 := by omega
   have h2 : bb = 0 ∨ bb = 1 ∨ bb = 2 := by omega
   rcases h1 with rfl | rfl | rfl <;> rcases h2 with rfl | rfl | rfl <;> decide
+
+/-- the hypotheses of `C25_generator_terminates` / `C25_generator_spec` are met by every `circular_brush`: corollary for
+the brushes users actually build (any rational diameter p/q) -/
+theorem C25_circular_generator_terminates {α : Type} [LT α] [DecidableRel (α := α) (· < ·)] (d : Dims) (p q : Nat)
+    (neg : α → α) (arr : Nat → α) :
+    (generator d (circularBrush p q) neg arr).1.status = "done" ∧
+      (generator d (circularBrush p q) neg arr).1.allGood = true :=
+  C25_generator_terminates d _ (C25_circularBrush_sym p q) (C25_circularBrush_centre p q) neg arr
+
+/-- the invariant is satisfiable (empty state) and the termination theorem applies to a concrete run -/
+example : Inv ⟨3, 5⟩ brush3 ⟨tab ⟨3, 5⟩ fun _ _ => false, tab ⟨3, 5⟩ fun _ _ => false⟩ := inv_empty _ _ (by decide)
+example : (generator (α := Int) ⟨3, 5⟩ brush3 (fun x => -x) (fun n => if n % 5 < 2 then 9 else -5)).1.status = "done" :=
+  (C25_generator_terminates _ _ brush3_sym (by decide) _ _).1
 
 /-- a 3×5 design, +9 on the left two columns and -5 on the right: the loop ends after 6 iterations, every choice was
 good, and the output is solid on three columns (the hypotheses of `C25_generator_partial` are satisfiable) -/
